@@ -7,6 +7,7 @@ solver which sides are feasible, takes one and queues the other.  Memory is
 therefore ordinary mutable Python state and contracts are ordinary Python.
 """
 import json
+import sys
 import time
 import z3
 from . import term as tm
@@ -379,9 +380,14 @@ class Explorer:
     def run(self, harness):
         self.work = [[]]
         self.paths = []
+        import os
+        t_end = time.time() + float(os.environ.get('VERIF_EXPLORE_TIMEOUT') or (7200 if os.environ.get('VERIF_TIER') == 'thorough' or '--tier thorough' in ' '.join(sys.argv) else 1800))
         while self.work:
             if len(self.paths) > self.max_paths:
                 raise Unsupported("path budget exceeded (%d)" % self.max_paths)
+            if time.time() > t_end:
+                # a harness whose path count explodes on a changed tree must not hold the whole check: no verdict for this harness
+                raise Unsupported("exploration time budget exceeded after %d paths" % len(self.paths))
             prefix = self.work.pop()
             ctx = Ctx(self, prefix)
             r = PathResult()
